@@ -892,22 +892,27 @@ def run_corpus(ctx):
 
 
 def run(ctx):
-    ctx.rule = ("APIs of 6-8 methods (unary/server/client/bidi streaming; POST body:* or GET; with/without method_signature) whose request "
+    ctx.rule = ("APIs of 6-8 methods in two services (unary plain/LRO/paginated, server/client/bidi streaming; POST body:* or GET; with/without "
+                "method_signature; `request_id` often declared in several request messages, plain in one and proto3-optional in another) whose request "
                 "messages declare string fields plain/proto3-optional x UUID4-annotated/unannotated/other-format x REQUIRED, and bytes/int/bool/"
-                "message/enum/repeated-string fields, plus a nested message; method-settings lists: valid | one single violation (unknown selector "
-                "in 9 spellings, streaming method, missing field, nested path, each defective declaration) | duplicate selectors (4 shapes) | "
-                "2-3 violations; calls: every listed field unset/empty/set x request instance/dict/flattened kwargs x {sync, asyncio, REST}, "
-                "repeated calls, the same dict twice, the same instance twice. distinct = (settings list) for T2/T3-generation, "
-                "(settings, path, call, caller object) for calls; every generated case is non-trivial")
+                "message/enum/repeated-string fields, plus a nested message; method-settings lists: valid (also reversed) | one single violation (unknown "
+                "selector in 9 spellings, streaming method, missing field, nested path, each defective declaration) | duplicate selectors (4 shapes) | "
+                "2-3 violations | shaped: long_running-only/streaming entries first and fields in a later entry, the same field for many methods, every "
+                "unary flavour at once; calls (literal values, two clients per session): every listed field unset/empty/set x request instance/dict/"
+                "flattened kwargs/no request x {sync, asyncio, REST, rest_asyncio}, repeated calls, the same dict twice, the same instance twice through "
+                "two clients, paginated calls with 1-2 follow-up pages; the emitted unit tests of the feature. distinct = (settings list) for T2/T3-"
+                "generation, (settings, path, call, caller object) for calls; every generated case is non-trivial")
     ctx.assume("string members of a real oneof, request messages from another proto package (no proto-plus wrapper), field names that are Python "
-               "reserved words, and the experimental rest_asyncio transport are outside the quantifier's declaration list and are not generated")
+               "reserved words are outside the quantifier's declaration list and are not generated")
+    ctx.assume("the follow-up requests of a paginated call are not calls of their own: the oracle asks them for a v4 id (or the caller's value), "
+               "not for a fresh one; that they repeat the first request's id is compared with the model only")
     ctx.assume("on the REST path the transport adds default-valued REQUIRED fields to the query string (C04's subject): REQUIRED fields that are not "
                "auto-populated are left out of the model comparison there")
     ctx.assume("uuid.uuid4 is external: the model takes it as an injective stream of non-empty strings; the oracle checks the RFC-4122 v4 shape "
                "and pairwise distinctness of every id the servers saw")
     run_corpus(ctx)
     r = ctx.rng("apis")
-    napis = ctx.n(4, 24)
+    napis = ctx.n(4, 16)
     for a in range(napis):
         spec = gen_spec(r, must_have=SINGLE_DEFECTS if a % 2 == 0 else SINGLE_DEFECTS[::-1])
         files = build_files(spec)
@@ -925,7 +930,7 @@ def run(ctx):
         lists += shaped
         t2(ctx, api, aj, spec, lists, f"api{a}")
         # T3 on a sub-list: accepted ones reach call time
-        pick = shaped + [x for x in lists if x[1] == "valid"][:ctx.n(1, 4)]
+        pick = shaped + [x for x in lists if x[1] == "valid"][:ctx.n(1, 3)]
         rest = [x for x in lists if not x[1].startswith(("valid", "shape"))]
         r.shuffle(rest)
         pick += rest[:ctx.n(7, 20)]
